@@ -40,7 +40,7 @@ def _val(x, table, pv, blocks=None):
     if isinstance(x, int) and x >= 2000:
         return float(SYM[x - 2000])
     if isinstance(x, int) and x >= 1000:
-        x = pv[x - 1000]
+        x = pv[x - 1001]
         if isinstance(x, tuple) and x and x[0] == "f":
             return float(x[1])
     return table(x)
